@@ -218,7 +218,18 @@ def minimise(prop, plan, key, budget_s=90):
         return has_key(res, key)
 
     hint = getattr(prop, "shrink_hint", None)
-    return ddmin.minimise_plan(plan, still_fails, hint, lambda: time.time() - t0 > budget_s)
+    best = ddmin.minimise_plan(plan, still_fails, hint, lambda: time.time() - t0 > budget_s)
+    # property-specific narrowing (e.g. an enumeration reduced to the single failing point)
+    narrow = getattr(prop, "narrow", None)
+    if narrow:
+        res = run_isolated(prop, best, timeout=120)
+        for v in res.get("violations") or []:
+            if vkey(v) == key:
+                cand = narrow(best, v)
+                if cand is not None and still_fails(cand):
+                    best = cand
+                break
+    return best
 
 
 def count_ops(prop, plan):
